@@ -38,8 +38,10 @@ TOK = ['a', 'A', 'and', 'a(', 'and(', 'not(', 'var(', 'rgb(', 'calc(', 'url(', '
        '=', '$=', 'U+1', '-', '/', '%', 'é', '\\0', 'ï»¿', '#', '@', '&', 'u', ':not(',
        # characters at the edges of what the target encoding can hold: a lone surrogate and a code point beyond U+10FFFF written
        # as escapes, a character outside the BMP, control characters
-       '\\D800 ', '\\110000 ', '\U0001d11e', '\x01', '\x7f', '"\\DFFF "']
-CORE = ['\\D800 ', 'a', 'a(', 'and(', 'var(', 'rgb(', 'calc(', 'url(', '@x', '@media', '@import', '@charset ', '{', '}', '(', ')', '[', ';', ':', ',', '!',
+       '\\D800 ', '\\110000 ', '\U0001d11e', '\x01', '\x7f', '"\\DFFF "',
+       # identifiers that *are* a delimiter once their escape is decoded
+       '\\7d ', '\\7b ', '\\3b ', '\\28 ', '\\22 ']
+CORE = ['\\D800 ', '\\7d ', 'a', 'a(', 'and(', 'var(', 'rgb(', 'calc(', 'url(', '@x', '@media', '@import', '@charset ', '{', '}', '(', ')', '[', ';', ':', ',', '!',
         '"s"', '"u', '1px', '#f00', '/*c*/', '/*', '<!--', ' ', '\\', '*']
 CORE4 = ['a', 'a(', 'var(', 'calc(', 'url(', '@x', '@media', '{', '}', '(', ')', '[', ';', ':', ',', '!', '"u', '1px', '/*c*/', '/*']
 CONTEXTS = ['%s', 'a{%s}', 'a{b:%s}', '%s{c:d}', '@media all{%s}', '@page{%s}', '@font-face{%s}', '@variables{%s}', '@import %s;',
